@@ -7,6 +7,7 @@ import "verif/vx"
 func init() {
 	add := vx.AppendRule
 	add("C01", " Also: the decoding calls with decode options (all / each alone; DecodeChained with all) over the header space with every cut, the corpus with cuts, developer-field definitions and record-header words; (h) headers that lie about the data size: every declared size from 0 to past the end on streams with a 200-byte array, 40-byte strings and 100 bytes of developer data, followed by the rest of the bytes / a right CRC and another file / nothing, under whole-buffer, 1-, 3- and 17-byte reads.")
+	add("C01", " (j) every pair of record-header bytes with model-expected bodies between the file_id definition and the first file_id data record.")
 	add("C01", " (i) a local timestamp at every whole-second distance between -15 h and +15 h from its UTC reference, both byte orders.")
 	add("C12", " Zone-offset sweep: a local timestamp at every whole-second distance between -15 h and +15 h from its UTC reference (108 001 offsets, both byte orders) must read the stored wall clock in a zone that far from UTC.")
 	add("C04", " Also: verdicts of Decode, CheckIntegrity and the header-only check on 7 valid files and single-bit corruptions at 40 positions each under whole-buffer, 1-, 7-, 100-, 1023-, 1024-, 4096-byte and halving readers; single- and double-bit bursts once more with all decode options.")
